@@ -107,7 +107,9 @@ Inductive op :=
 | Transform (m : mat)
 | TextMatrix (m : mat)
 | BeginMC (mcid : bool) | EndMC
-| Tok (k : Z).                               (* every other pydyf operator (one item appended) *)
+| Tok (k : Z)                                (* every other pydyf operator (one item appended) *)
+(* another Stream sharing the same resource dictionary (page streams, form field streams) registers a name *)
+| ExtState (v : gsval) | ExtAlpha (stroke : bool) (a : Z) (isint : bool).
 
 (* ------------------------------------------------------------------------------ the Stream state machine *)
 Record st := mk {
@@ -230,6 +232,8 @@ Definition mstep (o : op) (s : st) : option st :=
   | BeginMC mcid => Some (m_begin_mc mcid s)
   | EndMC => Some (m_end_mc s)
   | Tok k => Some (emit (Tother k) s)
+  | ExtState v => Some (with_egs (assign (KS (Z.of_nat (length (egs s)))) v (egs s)) s)
+  | ExtAlpha stroke a i => Some (with_egs (add_if_absent (KA stroke a i) (canon (KA stroke a i)) (egs s)) s)
   end.
 
 Fixpoint run (ops : list op) (s : st) : option st :=
@@ -278,6 +282,8 @@ Definition nstep (o : op) (n : nst) : nst :=
       else n
   | EndMC => if nmarkon n then nemit TEMC n else n
   | Tok k => nemit (Tother k) n
+  | ExtState v => nmk (ntoks n) (assign (KS (Z.of_nat (length (negs n)))) v (negs n)) (nnmark n) (nmarkon n)
+  | ExtAlpha stroke a i => nmk (ntoks n) (add_if_absent (KA stroke a i) (canon (KA stroke a i)) (negs n)) (nnmark n) (nmarkon n)
   end.
 Definition nrun (ops : list op) (n : nst) : nst := fold_left (fun n o => nstep o n) ops n.
 
@@ -514,6 +520,32 @@ Definition stream_judge (c : bool * list key * list op * option implout) : nat :
        (if pre && guarded ops s0 && negb same then 4 else 0) +
        (if pre && negb (guarded ops s0) && negb same then 8 else 0))%nat
   | _, _ => 1%nat
+  end.
+
+(* call traces recorded on real renders (every Stream object of a document): model vs the items found in
+   Stream.stream, plus the premises and the conclusion of the theorems evaluated on what the draw code really did.
+   bit 0: model <> implementation; bit 1: calls well bracketed but tokens not nested (impossible by theorem);
+   bit 2: premises hold but rendering differs (impossible by theorem); bit 3: rendering differs, calls not guarded
+   (F12 on a real document); bit 4: the calls of the draw code are not well bracketed; bit 5: something is shown
+   in a text object before the text matrix is set; bit 6: initial dictionary not well formed; bit 7: rendering
+   differs because `ET BT` was merged although the text matrix was not set again *)
+Definition trace_judge (c : bool * egsd * list op * list tok) : nat :=
+  let '(mark, d0, ops, out) := c in
+  let s0 := fresh mark d0 in
+  match run ops s0 with
+  | None => 1%nat
+  | Some s =>
+      let n := nrun ops (nfresh mark d0) in
+      let same := same_rendering (interp out) (interp (rev (ntoks n))) in
+      let w := wb ops in
+      let tmd := tm_disciplined false ops in
+      let g := guarded ops s0 in
+      ((if list_eqb tok_eqb (rev (toks s)) out then 0 else 1) +
+       (if w && negb (nested out) then 2 else 0) +
+       (if w && tmd && egs_wf d0 && g && negb same then 4 else 0) +
+       (if w && egs_wf d0 && negb g && negb same then 8 else 0) +
+       (if w then 0 else 16) + (if w && negb tmd then 32 else 0) + (if egs_wf d0 then 0 else 64) +
+       (if w && negb tmd && egs_wf d0 && g && negb same then 128 else 0))%nat
   end.
 
 (* monitor side: bracket skeleton of a content stream decoded from a real PDF: 0 q, 1 Q, 2 BT, 3 ET, 4 BMC/BDC,
